@@ -266,6 +266,9 @@ fn worker(args: &[String]) -> i32 {
         stats.merge(&r.stats);
         digest = crate::rng::mix(digest, r.log_hash);
         stats.bump(&format!("subject:{}", t.header.kind.name()));
+        if prop == "C05" && (i as usize) < gen::c05_grid().len() {
+            stats.bump("ctor_grid_points_enumerated");
+        }
         stats.bump(&format!("key_type:{}", t.header.key_type));
         if t.header.random_state {
             stats.bump("uncontrolled_hasher_runs");
